@@ -1748,6 +1748,21 @@ class C20(Prop):
             qs += families.q_ded(rng)
         for _ in range(ctx.scale(200, 3000)):
             qs += families.q_ros(rng)
+        # sparse arrival processes as the task under analysis: ApproximatedPoisson with number_arrivals(1) = 0 (outside the Coq model:
+        # implementation only, both profiles) -- the curve does not step at delta = 1, so offsets contributed by OTHER tasks meet no
+        # demand of the analysed task (repaired defect: fix for NP/LP-EDF truncated subtraction)
+        for _ in range(ctx.scale(50, 600)):
+            w = rng.choice(["fp_np", "fp_lp", "edf_np", "edf_lp", None])       # mostly the variants that subtract a remaining cost
+            q = families.q_ded(rng)[0] if w is None else (families.q_fp(rng, w)[0] if w.startswith("fp") else families.q_edf(rng, w)[0])
+            ap = ["apoisson", rng.randint(1, 30), rng.choice([1000, 10000]), 1, rng.choice([100, 1000])]
+            k = q[0]
+            if k in ("fp_fp", "fp_fnp"): q[1] = ["rbf", ap, q[1][2]]
+            elif k in ("fp_np", "fp_lp"): q[1] = ap; q[2] = max(2, q[2])
+            elif k in ("edf_fp", "edf_fnp"): q[1][0] = ["rbf", ap, q[1][0][2]]
+            elif k in ("edf_np", "edf_lp"): q[1][0] = ap; q[1][1] = max(2, q[1][1])
+            else: continue
+            q[-1] = rng.randint(200, 600)
+            qs.append(q)
         # witnesses of the known finding (ArrivalCurvePrefix inside an analysis)
         pf = ["prefix", ["steps", 10, [[1, 1], [5, 2]]]]
         wit = [["fifo", ["agg", [["rbf", pf, ["scalar", 2]]]], 100],
@@ -2193,7 +2208,7 @@ class C15(Prop):
             "with non-zero result")
     proof_status = "real-number specification and checker soundness proved (standard-library real/classical axioms); the f64 program itself is tied by the tolerance-band check only"
     trusted_extra = ["C15: axioms of the standard library's real numbers and Coquelicot: ClassicalDedekindReals.sig_forall_dec, sig_not_dec, FunctionalExtensionality.functional_extensionality_dep, Classical_Prop.classic",
-                     "C15: f64 arithmetic, exp and ln of the platform are not modelled; the tolerance tau = 1e-9 absorbs their rounding"]
+                     "C15: f64 arithmetic, exp and ln of the platform are not modelled; the tolerance tau = 1e-9 (1e-12 for the tiny-epsilon stream with means below 30) absorbs their rounding"]
     def run(self, ctx):
         rng = ctx.rng
         qs = []; meta = []
@@ -2204,6 +2219,16 @@ class C15(Prop):
             delta = max(0, int(mean * rd / rn))
             if rng.random() < 0.05: delta = 0
             base = len(qs)
+            qs += [["poisson_na", rn, rd, en, ed, delta], ["poisson_na", rn, rd, en, ed, delta + rng.randint(1, 5)]]
+            meta.append((base, rn, rd, en, ed, delta))
+        # tiny epsilons (1e-9 .. 1e-12; "all epsilon in (0,1)"): small means only, so that the f64 running sum (at most ~150 terms)
+        # is accurate to ~1e-14 and the band can be as narrow as tau = 1e-12
+        tiny = set()
+        for _ in range(ctx.scale(40, 400)):
+            rd = rng.choice([10, 100]); rn = rng.randint(1, 50)
+            ed = rng.choice([10 ** 9, 10 ** 10, 10 ** 11, 10 ** 12]); en = rng.randint(1, 9)
+            delta = max(1, int(rng.uniform(0.2, 30) * rd / rn))
+            base = len(qs); tiny.add(base)
             qs += [["poisson_na", rn, rd, en, ed, delta], ["poisson_na", rn, rd, en, ed, delta + rng.randint(1, 5)]]
             meta.append((base, rn, rd, en, ed, delta))
         for _ in range(ctx.scale(80, 800)):
@@ -2220,7 +2245,7 @@ class C15(Prop):
             for off, d in ((0, delta), (1, qs[base + 1][5])):
                 dv = rows[base + off][1]
                 if dv and dv[0] == "n":
-                    cq.append(["poisson_check", rn, rd, en, ed, 1, 10 ** 9, d, dv[1]]); cmeta.append((rows[base + off][0], dv[1], rn * d / rd))
+                    cq.append(["poisson_check", rn, rd, en, ed, 1, 10 ** (12 if base in tiny else 9), d, dv[1]]); cmeta.append((rows[base + off][0], dv[1], rn * d / rd))
         crows = ctx.run(cq, release=False) if False else None
         # poisson_check is a model-only query: evaluate through the model runner directly
         cases = list(enumerate(cq))
